@@ -17,7 +17,7 @@ more "use" statements that take the value L of shift as a weight.  Spanned side 
   :~ / #minimize / #maximize with + and - sign, priorities, variable priority, conditional literal before/after,
   sibling objectives that unify / do not unify (priority, length, functor), two replaced objectives, aggregate
   inside a weak constraint; arity-3 predicate with anonymous / named third argument; positions that make
-  `assert trigger_index is not None` fail.
+  `assert trigger_index is not None` fail (tags ASSERT-*); classically negated atoms in heads / uses.
 Input domains day/1, len/1, pl/2 are instance predicates (per-group domains, ties, negatives)."""
 import itertools
 
@@ -36,7 +36,6 @@ def _choice_evidence():
     ev.append(("ch-le1-pergroup-dom", ["{ shift(D,L) : pl(D,L) } 1 :- day(D)."]))
     ev.append(("ch-lt2", ["{ %s } < 2 :- day(D)." % elem]))
     ev.append(("ch-eq1", ["{ %s } = 1 :- day(D)." % elem]))
-    ev.append(("ch-left-1ge", ["1 >= { %s } :- day(D)." % elem]))
     ev.append(("ch-left-2gt", ["2 > { %s } :- day(D)." % elem]))
     ev.append(("ch-both-0-1", ["0 { %s } 1 :- day(D)." % elem]))
     ev.append(("ch-both-1-1", ["1 { shift(D,L) : pl(D,L) } 1 :- day(D)."]))
@@ -75,7 +74,7 @@ def _head_evidence():
     for (tn, t), (bn, b) in itertools.product(tuples, bounds):
         agg = "#sum { %s : shift(D,L) : len(L) }" % t
         ev.append(("hs-sum-%s-%s" % (tn, bn), [(b % agg) + " :- day(D)."]))
-    for (tn, t), (bn, b) in itertools.product(tuples, [bounds[0], bounds[1], bounds[4]]):
+    for (tn, t), (bn, b) in itertools.product(tuples, [bounds[0], bounds[4]]):
         agg = "#count { %s : shift(D,L) : pl(D,L) }" % t
         ev.append(("hs-count-%s-%s" % (tn, bn), [(b % agg) + " :- day(D)."]))
     # several elements
@@ -230,6 +229,8 @@ def programs():
             uses = [("agg", ["a(X) :- X = #sum { L : shift(_,L) }."]), ("obj", [":~ shift(_,L). [L@0]"]),
                     ("agg-named-group", [U_TOT]), ("obj-named-group", [O_MIN])]
         del grp
+        if tag.startswith(("ch-NOT", "ch-ASSERT", "ch-two")):
+            uses = uses[:2]
         for un, ul in uses:
             add("ev:%s/%s" % (tag, un), lines + ul)
     for tag, lines in head:
@@ -250,7 +251,7 @@ def programs():
     obj_uses = _obj_uses()
     for (en, el), (tag, ul) in itertools.product(sound, agg_uses + obj_uses):
         add("use:%s/%s" % (tag, en), el + ul)
-    for tag, ul in agg_uses[:8] + obj_uses[:9]:
+    for tag, ul in agg_uses[:6] + obj_uses[:4] + obj_uses[6:7]:
         add("use:%s/%s" % (tag, hs[0]), hs[1] + ul)
 
     # 3. arity 3: two local positions, third argument anonymous / named / constant
@@ -278,7 +279,7 @@ def programs():
         ("dom-negative-condition", ["{ shift(D,L) : len(L), not pl(D,L) } 1 :- day(D)."]),
         ("dom-aggregate-in-body", ["{ shift(D,L) : len(L) } 1 :- day(D), 1 <= #count { E : pl(D,E) }."]),
     ]
-    for (tag, el), (un, ul) in itertools.product(dom, [("agg", [U_TOT]), ("agg-day", [U_DAY]), ("obj", [O_MIN])]):
+    for (tag, el), (un, ul) in itertools.product(dom, [("agg", [U_TOT]), ("obj", [O_MIN])]):
         add("%s/%s" % (tag, un), el + ul)
 
     # 5. domain values fixed by facts (negative / zero / positive; also given by the instance): #sum+ ignores
@@ -292,9 +293,12 @@ def programs():
         ("sumplus-weight-twice", "a(X) :- X = #sum+ { L,D : shift(D,L), L < 9 }."),
     ]
     for (en, el), (un, ul) in itertools.product(
-        [("ch", "{ shift(D,L) : len(L) } 1 :- day(D)."), ("hsum", "#sum { 1,L : shift(D,L) : len(L) } <= 1 :- day(D)."),
-         ("NOT-le2", "{ shift(D,L) : len(L) } 2 :- day(D).")], fact_uses):
+        [("ch", "{ shift(D,L) : len(L) } 1 :- day(D)."), ("hsum", "#sum { 1,L : shift(D,L) : len(L) } <= 1 :- day(D).")], fact_uses):
+        if en == "hsum" and un not in ("sum-total", "obj-max", "sumplus-total", "sumplus-per-group"):
+            continue
         add("negfacts:%s/%s" % (un, en), negfacts + [el, ul], [["len", 1]])
+    for un, ul in (fact_uses[0], fact_uses[4]):  # bound 2: must not fire (two facts only: keeps the answer sets few)
+        add("negfacts:%s/NOT-le2" % un, ["len(-2).", "len(3).", "{ shift(D,L) : len(L) } 2 :- day(D).", ul], [["len", 1]])
 
     # 6. group term of the choice atom is not injective in the rule's global variable (facts make two days collide)
     dayfacts = ["day(2).", "day(3).", "pl(2,1).", "pl(3,4)."]
@@ -303,6 +307,13 @@ def programs():
                        ("obj", ":~ shift(G,L). [L@0,G]")):
             add("ev:ch-BAD-noninjective-%s-facts/%s" % (gn, un),
                 dayfacts + ["{ shift(%s,L) : pl(D,L) } 1 :- day(D)." % g, ul], [["day", 1], ["pl", 2]])
+
+    # 8. classically negated atoms: as choice head (DomainPredicates), as head of a further rule, only in the use
+    for un, ul in (("agg", "a(D,X) :- X = #sum { L : -shift(D,L) }, day(D)."), ("obj", ":~ -shift(D,L). [L@0,D]")):
+        add("classneg:choice-head/%s" % un, ["{ -shift(D,L) : len(L) } 1 :- day(D).", ul])
+        add("classneg:other-rule-head/%s" % un, ["{ shift(D,L) : len(L) } 1 :- day(D).", "-shift(D,L) :- pl(D,L), not shift(D,L).", ul])
+        add("classneg:use-only/%s" % un, ["{ shift(D,L) : len(L) } 1 :- day(D).", ul])
+    add("classneg:other-rule-head/pos-use", ["{ shift(D,L) : len(L) } 1 :- day(D).", "-shift(D,L) :- pl(D,L), not shift(D,L).", U_DAY])
 
     # 7. at most one enforced by an integrity constraint only (not recognised: must not fire)
     for un, ul in (("agg", U_DAY), ("obj", O_MIN)):
